@@ -36,6 +36,12 @@ fn judge_pair<T: Clone + PartialOrd + Debug>(ty: &str, a: &Interval<T>, b: &Inte
     if (got == Some(Ordering::Equal)) != (a == b) {
         l.violation(format!("equal-vs-eq|{}x{}", ka, kb), "partial_cmp is Equal but == disagrees (or vice versa)".to_string(), case(), detail(json!({"==": a == b})));
     }
+    // != is the negation of == (an overridden `ne` is part of the equality the order must be consistent with)
+    l.eval();
+    #[allow(clippy::nonminimal_bool)]
+    if (a != b) == (a == b) || (b != a) == (b == a) {
+        l.violation(format!("ne-vs-eq|{}x{}", ka, kb), "a != b is not the negation of a == b".to_string(), case(), detail(json!({"==": a == b, "!=": a != b})));
+    }
     // antisymmetry: a < b iff b > a
     let rev = b.partial_cmp(a);
     l.eval();
